@@ -10,9 +10,14 @@ Decides (structure only):
  E4 unbounded recursion: functions that recurse over a syntax tree's children with no depth bound and no
     RecursionError handler - a deep or long expression makes the rule fail inside _safe_check_rule's swallow;
  E6 results of helpers that may return None are tested before they are dereferenced;
- E7 every read of a linted file's bytes handles both UnicodeDecodeError and OSError.
-Not decided: termination and exit status for arbitrary bytes (E5 regex back-tracking and E6 Optional discipline are
-left to mypy/other families, see DESIGN).
+ E7 every read of a linted file's bytes handles both UnicodeDecodeError and OSError;
+ E5 regex back-tracking: no constant pattern has ambiguity degree >= 3 (adjacent overlapping unbounded repeats) or a
+    nested unbounded repeat (analysis of the regex AST, tlsa/regexes.py);
+ E8 Optional discipline at large: mypy (library run that also builds the call graph) reports no None/Optional misuse;
+ E9 text written to the SQLite stores is bound under a UnicodeError handler or re-encoded (lone surrogates, non-UTF-8 names);
+ E10 a literal's integer value is rendered as decimal text only under a ValueError handler (4300-digit limit).
+Not decided: termination in general (only the three structural sources above: recursion depth, regex ambiguity,
+and nothing about algorithmic cost - e.g. the >10 min nesting run on a 1.2 MB one-line array is out of reach).
 """
 
 from __future__ import annotations
@@ -199,6 +204,85 @@ def check(run, ctx):
                     run.ok(E7, sym, "UnicodeDecodeError and OSError handled")
                 else:
                     run.finding(E7, sym, f"unhandled:{'UnicodeDecodeError' if not u else ''}{'OSError' if not o else ''}", f"{fq}: {norm(c)} on a linted file is not protected against {'UnicodeDecodeError ' if not u else ''}{'OSError' if not o else ''}: binary or unreadable files make the run fail", f"{f.module.rel}:{c.lineno}")
+    E5 = run.rule("E5", "no regular expression of src has three or more adjacent unbounded repeats over a common character before a required item, nor an unbounded repeat nested in one (regex ASTs from re._parser)", floor=40,
+                  decides="matching cannot take cubic or exponential time in the length of a file, a comment or a line")
+    from .. import regexes as RX
+
+    for p_ in RX.patterns_in(repo):
+        sym = f"{p_['module'].name.replace('src.', '', 1)}:{p_['expr']}"
+        if p_["pattern"] is None:
+            run.ok(E5, sym, "pattern is not a constant (built from configuration or escaped text): not analysed", nontrivial=False)
+            continue
+        res = RX.analyse(p_["pattern"], p_["flags"] or 0)
+        if res is None:
+            run.ok(E5, sym, "pattern does not parse", nontrivial=False)
+        elif res[0] >= 3:
+            run.finding(E5, p_["module"].name.replace("src.", "", 1), f"regex-degree-{res[0]}:{p_['pattern'][:60]}", f"{p_['pattern']!r}: {res[1]}: on a long run of that character followed by a mismatch the matcher tries every split ({'exponentially many' if res[0] >= 99 else 'n^' + str(res[0])} steps) - a few thousand characters stall the run", f"{p_['module'].rel}:{p_['line']}")
+        else:
+            run.ok(E5, sym, f"ambiguity degree {res[0]}")
+
+    E9 = run.rule("E9", "text written to a store as an SQL parameter (str taken from source literals or paths) is under a UnicodeError/ValueError handler or made encodable first", floor=5,
+                  decides="a lone surrogate in a string literal ('\\ud800') or a non-UTF-8 file name cannot raise UnicodeEncodeError (a ValueError) out of a rule and end every command with exit 2")
+    for fq in rule_funcs + [q for q in sorted(repo.funcs) if q.startswith(("src.linters.dry.cache", "src.linters.stringly_typed.storage")) and q not in rule_funcs]:
+        f = repo.funcs[fq]
+        for s_ in cg.out.get(fq, ()):
+            if s_["kind"] != "call" or s_["name"] not in ("execute", "executemany") or not any("sqlite3" in c_ for c_ in s_["callees"]):
+                continue
+            pt = str(s_["argtypes"].get(1, ""))
+            if "str" not in pt:
+                continue
+            sql = " ".join(str(s_["argtypes"].get(0, "")).split())
+            if not any(sql.upper().startswith(f"LITERAL['{kw}") for kw in ("INSERT", "REPLACE", "UPDATE")):
+                continue  # look-ups bind names that were stored before (the insert would have failed first)
+            call = L.idx.call_at(s_["module"], s_["span"])
+            if call is None:
+                continue
+            sym = f"{fq.replace('src.', '', 1)}:{' '.join(str(s_['argtypes'].get(0, '')).split())[9:45]}"
+            if is_caught(f.node, call, "ValueError") or is_caught(f.node, call, "UnicodeEncodeError"):
+                run.ok(E9, sym, "under a ValueError/UnicodeError handler")
+            elif any(is_call_named(n, "encode") and any(isinstance(k.value, ast.Constant) and k.value.value in ("replace", "backslashreplace", "surrogatepass", "surrogateescape", "ignore") for k in n.keywords) for n in ast.walk(f.node)):
+                run.ok(E9, sym, "text is re-encoded with an error policy before binding")
+            else:
+                run.finding(E9, fq.replace("src.", "", 1), f"sql-text-binding:{pt[:60]}", f"{fq} binds {pt} with no handler: sqlite3 encodes str parameters as UTF-8 and raises UnicodeEncodeError (a ValueError) for a lone surrogate, which _safe_check_rule re-raises - one such string literal in one file ends every command with exit 2", f"{f.module.rel}:{call.lineno}")
+
+    E10 = run.rule("E10", "a numeric literal's value is rendered as decimal text (f-string, str(), format) only under a ValueError handler", floor=3,
+                   decides="an integer literal of more than 4300 digits (written in hex/octal/binary) does not raise 'Exceeds the limit for integer string conversion' out of the magic-number rule")
+    for f in sorted(repo.funcs_in("src.linters.magic_numbers."), key=lambda x: x.qual):
+        vals = [a.arg for a in f.node.args.args + f.node.args.kwonlyargs if a.arg == "value" and a.annotation is not None and "int" in ast.unparse(a.annotation)]
+        if not vals:
+            continue
+        uses = [n for n in ast.walk(f.node) if (isinstance(n, ast.FormattedValue) and isinstance(n.value, ast.Name) and n.value.id == "value")
+                or (isinstance(n, ast.Call) and call_name(n) in ("str", "repr", "format") and n.args and isinstance(n.args[0], ast.Name) and n.args[0].id == "value")]
+        # renderings on the not-an-int side of `... if isinstance(value, int) else ...` concern floats only (no digit limit)
+        float_side = [x for n in ast.walk(f.node) if isinstance(n, (ast.IfExp, ast.If)) and is_call_named(n.test, "isinstance") and len(n.test.args) == 2 and ast.unparse(n.test.args[0]) == "value" and ast.unparse(n.test.args[1]) == "int"
+                      for part in ([n.orelse] if isinstance(n, ast.IfExp) else n.orelse) for x in ast.walk(part)]
+        uses = [u for u in uses if not any(u is x for x in float_side)]
+        sym = f.qual.replace("src.", "", 1)
+        if not uses:
+            if any(isinstance(n, ast.JoinedStr) for n in ast.walk(f.node)):
+                run.ok(E10, sym, "builds its message from a rendering obtained elsewhere (no direct str/f-string of the value)")
+            continue
+        if all(is_caught(f.node, u, "ValueError") for u in uses):
+            run.ok(E10, sym, "rendered under a ValueError handler")
+        else:
+            run.finding(E10, sym, "int-to-decimal-text", f"{f.qual} interpolates the literal's value into the message: CPython refuses to convert an int of more than 4300 digits to decimal text (ValueError), and _safe_check_rule re-raises ValueError - a huge hex literal ends the run with exit 2", f"{f.module.rel}:{uses[0].lineno}")
+
+    E8 = run.rule("E8", "the type checker (mypy, run as a library over src while the call graph is built) reports no use of a possibly-None value: no diagnostic that names None / Optional", floor=1,
+                  decides="an attribute or argument that is None for damaged input (SyntaxError.lineno, child_by_field_name, re.match) does not raise TypeError/AttributeError inside a rule, where _safe_check_rule would swallow it together with the rule's findings")
+    import re as _re
+    errs = cg.data.get("mypy_errors")
+    run.require(errs is not None, "the call-graph cache carries no mypy diagnostics")
+    none_errs = [e for e in errs if ": error:" in e and _re.search(r"\bNone\b|Optional", e)]
+    for e in none_errs:
+        m = _re.match(r"(?P<file>[^:]+):(?P<line>\d+)(?::\d+)?: error: (?P<msg>.*?)(?:\s+\[(?P<code>[\w-]+)\])?$", e)
+        if not m:
+            continue
+        rel = m.group("file")
+        ln = int(m.group("line"))
+        owner = next((f for f in sorted(repo.funcs.values(), key=lambda x: -x.node.lineno) if f.module.rel == rel and f.node.lineno <= ln <= (f.node.end_lineno or f.node.lineno)), None)
+        sym = owner.qual.replace("src.", "", 1) if owner else rel
+        run.finding(E8, sym, f"{m.group('code')}:{m.group('msg')[:80]}", f"{sym}: mypy: {m.group('msg')} - the value can be None at run time; the resulting TypeError/AttributeError is swallowed by _safe_check_rule (or ends the run), so the file's findings are silently lost", f"{rel}:{ln}")
+    run.ok(E8, "src", f"{len(errs)} mypy diagnostics over src, {len(none_errs)} about None/Optional")
     run.extra["functions_reachable_from_rules"] = len(rule_funcs)
     run.extra["call_resolution"] = f"{cg.n_resolved}/{cg.n_calls}"
     return __doc__
